@@ -46,7 +46,7 @@ func runC06(c *core.Ctx) {
 	k := 1
 	graphs := []*world.Graph{world.BaseGraph(0), world.BaseGraph(1)}
 	fsViews := []*world.Graph{graphs[0].FSView(s), graphs[1].FSView(s)}
-	kinds := []world.FaultKind{world.FaultErr, world.FaultGroup, world.FaultExt, world.FaultShared}
+	kinds := []world.FaultKind{world.FaultErr, world.FaultGroup, world.FaultExt, world.FaultShared, world.FaultWrapped}
 	completed := true
 	docsWithin(c, s, world.BaseDocs(), k, 0, func(d *world.Doc, dist int) bool {
 		if c.Expired() {
@@ -193,7 +193,7 @@ func runC06(c *core.Ctx) {
 				}
 			}
 		}
-		sample(c, func() interface{} { return map[string]interface{}{"query": text, "fault_plans": "every single call of the reference call log x 4 kinds"} })
+		sample(c, func() interface{} { return map[string]interface{}{"query": text, "fault_plans": "every single call of the reference call log x 5 kinds"} })
 		return true
 	})
 	c.R.Bound = fmt.Sprintf("documents within %d mutations of the bases; single faults (thorough: + all pairs for logs <= 10)", k)
